@@ -87,10 +87,66 @@ def check_spec(name, spec, sub_instrs, max_len):
     return rec
 
 
+class _NoSolver:
+    """stand-in for BlockOptimizer inside search_optimal (stub, in evidence): only the bound the solver would be handed matters"""
+    def __init__(self, *a, **k):
+        pass
+
+    def optimize_block(self):
+        from smt_encoding.block_optimizer import OptimizeOutcome
+        return OptimizeOutcome.no_model, 0.0, None
+
+
+def ub_job(j):
+    """-ub-greedy: the real search_optimal tightens init_progr_len to the length of the greedy sequence; the tightened
+    bound, together with the unchanged max_sk_sz, must still admit a realizing sequence"""
+    import copy
+    import gasol_asm
+    recs = []
+    real = gasol_asm.BlockOptimizer
+    gasol_asm.BlockOptimizer = _NoSolver
+    try:
+        for b in gasol.parse_plain(j[1]):
+            try:
+                sfs, subs = gasol.sfs_of(b)
+            except Exception:
+                continue
+            for name, spec in sfs.items():
+                before = spec["init_progr_len"]
+                work = copy.deepcopy(spec)
+                with gasol.Silence():
+                    try:
+                        _, _, _, greedy_ids = gasol_asm.search_optimal(work, gasol.params(), 1, name)
+                    except Exception as e:
+                        recs.append({"name": name, "text": j[1], "verdict": "search-raised", "bad": [], "why": repr(e)[:100]})
+                        continue
+                n, bs = work["init_progr_len"], work["max_sk_sz"]
+                rec = {"name": name, "text": j[1], "n": n, "bs": bs, "bad": [], "verdict": "ok", "tightened": n < before, "rules": [], "orig": spec.get("original_instrs", "")}
+                if n < before and n <= MAX_LEN:
+                    try:
+                        S = synth.Synth(work, n, bs)
+                        r, m = query(S, 20000, "c16:ub-greedy")
+                    except Exception as e:
+                        rec["verdict"] = "unsupported"
+                        recs.append(rec)
+                        continue
+                    if r == "unsat":
+                        rec["bad"].append("-ub-greedy tightens init_progr_len from %d to %d (greedy sequence %s), but no realizing sequence of that length "
+                                          "fits max_sk_sz = %d" % (before, n, greedy_ids, bs))
+                    elif r != "sat":
+                        rec["verdict"] = "undecided"
+                recs.append(rec)
+    finally:
+        gasol_asm.BlockOptimizer = real
+    return {"recs": recs, "stats": STATS.as_dict()}
+
+
 def job(j):
     from sfs_generator.utils import process_blocks_split
     kind = j[0]
     recs = []
+    if kind == "ub":
+        return ub_job(j)
     if kind == "text":
         blocks = gasol.parse_plain(j[1])
     else:
@@ -142,9 +198,11 @@ def main():
             for lo in range(0, 60 if tier == "quick" else 120, 20):
                 jobs.append(("doc", d, lo, lo + 20))
         tasks.append((o, jobs, 300))
+    ub = gasol.optset("none", "gas", True, True, "ub-greedy")
+    tasks.append((ub, [("ub", t) for i, t in enumerate(texts) if i % (3 if tier == "quick" else 1) == 0], 300))
     results, _ = pool.run(tasks, "checks.c16:job", job_timeout=600)
     stats = Stats()
-    specs = decided = 0
+    specs = decided = tightened = 0
     verdicts = {}
     samples = []
     for o, j, r in results:
@@ -156,6 +214,8 @@ def main():
             pass
         for rec in r["recs"]:
             specs += 1
+            if rec.get("tightened"):
+                tightened += 1
             verdicts[rec["verdict"]] = verdicts.get(rec["verdict"], 0) + 1
             if rec["verdict"] == "ok":
                 decided += 1
@@ -193,8 +253,13 @@ def main():
         "explanation": "states = specifications for which all bound queries were decided (feasibility SAT with a witness replayed on "
                        "the reference stack machine; every published minimum UNSAT one below it); transitions = specifications seen; "
                        "synthesis queries are capped at length %d" % MAX_LEN,
-        "functions": ["front-end generate_json (init_progr_len, max_sk_sz, original_instrs)", "json_with_dependencies.extended_json_with_minlength"],
+        "functions": ["front-end generate_json (init_progr_len, max_sk_sz, original_instrs)", "json_with_dependencies.extended_json_with_minlength",
+                      "gasol_asm.search_optimal (-ub-greedy tightening)"],
         "templates": len(texts),
+        "ub_greedy": {"specifications_whose_bound_was_tightened_by_the_real_search_optimal": tightened,
+                      "obligation": "a realizing sequence within (tightened init_progr_len, max_sk_sz) exists (E3, SAT)"},
+        "stubs": ["-ub-greedy part only: gasol_asm.BlockOptimizer rebound to a class that answers no_model at once, so that search_optimal "
+                  "performs its bound tightening without starting a solver"],
     }
     rep.assumptions = ["specifications longer than %d instructions are counted, not decided" % MAX_LEN]
     sys.exit(rep.finish())
